@@ -834,8 +834,14 @@ int reb_integrator_whfast_init(struct reb_simulation* const r){
     }
     const unsigned int N = r->N;
     if (ri_whfast->N_allocated != N){
+        const unsigned int N_old = ri_whfast->N_allocated;
         ri_whfast->N_allocated = N;
         ri_whfast->p_jh = realloc(ri_whfast->p_jh,sizeof(struct reb_particle)*N);
+        if (N > N_old){
+            // Only some members of p_jh are ever set (positions, velocities, mass). p_jh is part of binary
+            // files and simulation comparisons. Make sure the remaining members are not uninitialized memory.
+            memset(ri_whfast->p_jh+N_old, 0, sizeof(struct reb_particle)*(N-N_old));
+        }
         ri_whfast->recalculate_coordinates_this_timestep = 1;
     }
     return 0;
